@@ -91,6 +91,7 @@ type Interp struct {
 	funcsSeen map[*ssa.Function]bool
 	tokenSeq  int
 	curFrame  *frame
+	syncMaps  map[*value]*omap
 }
 
 type deferred struct {
@@ -631,6 +632,13 @@ func prepareCall(fr *frame, call *ssa.CallCommon) (fn value, args []value) {
 		if recv.t == nil {
 			fr.rtPanic("invalid memory address or nil pointer dereference (method %s on nil interface)", call.Method.Name())
 		}
+		if rt, ok := recv.v.(rtype); ok {
+			fn = &rtypeMethod{rt: rt, name: call.Method.Name()}
+			for _, arg := range call.Args {
+				args = append(args, fr.get(arg))
+			}
+			return
+		}
 		if n, ok := recv.v.(native); ok {
 			if _, isHostErr := recv.t.(*hostType); isHostErr {
 				fn = &hostMethod{recv: n, name: call.Method.Name(), sig: call.Method.Type().(*types.Signature)}
@@ -678,6 +686,8 @@ func call(i *Interp, caller *frame, callpos token.Pos, fn value, args []value) v
 		return fn.call(i, caller, args)
 	case *hostFunc:
 		return fn.call(i, caller, args)
+	case *rtypeMethod:
+		return callRTypeMethod(caller, fn.rt, fn.name, args)
 	}
 	panic(fmt.Sprintf("cannot call %T", fn))
 }
